@@ -5,6 +5,8 @@ from .pure import *
 def run_case(seed, index, props):
     rng = case_rng(seed, 'clone', index)
     w = gen_wbs(rng, rng.randint(1, 6), alph=SINGLE_LINE); w.title = 'T'; w.rev = 3
+    for t in w.tasks:
+        if rng.random() < .3: t.min_start = datetime(2024, rng.randint(1, 12), rng.randint(1, 28))
     tags = set(); viol = []
     bad = lambda c, d='': viol.append((c, d))
     outs = [Task(rng.choice([100 + j, 100 + j, 100 + j, rng.choice([t.id for t in w.tasks])]), f'o{j}') for j in range(2)]
